@@ -358,6 +358,25 @@ for _op, _tr in (('add', 'Add'), ('sub', 'Sub'), ('mul', 'Mul'), ('div', 'Div'),
            'integer %s: panics on overflow when the crate is built with overflow checks (dev), wraps otherwise (release); / and %% panic on zero' % _op)(arith_native(_op))
 
 
+@native(r'^core::num::<impl (i8|i16|i32|i64|isize)>::(rem_euclid|div_euclid)$', 'iN::rem_euclid / div_euclid: Euclidean remainder (never negative) and quotient; panic on a zero divisor and on MIN / -1')
+def int_euclid(vm, m, callee, args):
+    from z3 import SRem
+    a, b = dv(vm, args[0]), dv(vm, args[1])
+    x, y = a.v, b.v
+    w = x.size()
+    pan = Or(y == BitVecVal(0, w), And(x == BitVecVal(1 << (w - 1), w), y == BitVecVal(-1, w)))
+    ys = If(y == BitVecVal(0, w), BitVecVal(1, w), y)
+    r = SRem(x, ys)
+    q = x / ys
+    if callee.endswith('rem_euclid'):
+        val = If(r < 0, If(ys > 0, r + ys, r - ys), r)
+    else:
+        val = If(r < 0, If(ys > 0, q - 1, q + 1), q)
+    if is_concrete_bool(pan) is False:
+        return BV(val, True)
+    raise NativeFork([(pan, lambda m2, a2: (_ for _ in ()).throw(NativePanic('attempt to divide with overflow or by zero'))), (Not(pan), lambda m2, a2: BV(val, True))])
+
+
 @native(r'^std::ops::RangeInclusive::<(i8|i16|i32|i64|isize|u8|u16|u32|u64|usize)>::new$', 'RangeInclusive::new(a, b)')
 def range_incl_new(vm, m, callee, args):
     return Struct('RangeInclusive', [dv(vm, args[0]), dv(vm, args[1])])
